@@ -167,9 +167,16 @@ def _set_branch_location(control, to_branch, current_branch, force=False):
                 ) from e
             with b.lock_write():
                 b.set_bound_location(None)
-                b.pull(
-                    to_branch, overwrite=True, possible_transports=possible_transports
-                )
+                try:
+                    b.pull(
+                        to_branch,
+                        overwrite=True,
+                        possible_transports=possible_transports,
+                    )
+                except BaseException:
+                    # Still a checkout of the branch it was bound to.
+                    b.set_bound_location(bound_branch)
+                    raise
                 b.set_bound_location(to_branch.base)
                 b.set_parent(b.get_master_branch().get_parent())
         else:
